@@ -26,11 +26,12 @@ CHECKS = {
     "C18": ("Pipeline", "InvC18 model-checked for every placement of unrunnable entries; real runs with and without the unrunnable entries compared by Trace_Pipeline"),
 }
 
-NOT_YET = {
-    "C07": "configuration-loading model (ConfigLoad.tla) not built yet in this round",
-    "C19": "store model (Store.tla) not built yet in this round",
-    "C20": "expression-evaluator model (FxParser.tla) not built yet in this round",
-}
+CHECKS.update({
+    "C07": ("ConfigLoad", "abstract configurations enumerated by TLC (invariants: calls independent of layout / carrier, unknown names ignored); every configuration serialised in every layout x carrier that can express it and Config(source).calls validated by Trace_Config, incl. the Call.config() round trip"),
+    "C19": ("Store", "FrameOK model-checked for satisfiability over CF-illegal stream ids x write flags x include / exclude lists; real PandasStore.save frames, compute_aggregate roll-ups and cf_safe_name outputs validated by Trace_Store"),
+    "C20": ("FxParser", "history independence and precedence of the postfix stack machine model-checked against an independent precedence-climbing semantics over exact rationals for every expression of depth <= 2; real eval_fx sessions (stack never cleared), validator decisions and create_config runs on synthetic climatologies validated by Trace_Fx"),
+})
+NOT_YET = {}
 
 
 def main():
@@ -61,7 +62,13 @@ def main():
              "kind_free_text": "TLA+ transcription of the QC rules + session state machine; TLC model checking, state dump replay, trace validation"},
             {"name": "Aggregate", "path": "spec/Aggregate.tla spec/MC_Aggregate.tla spec/Trace_Agg.tla", "serves_properties": ["C04"],
              "kind_free_text": "TLA+ aggregate operator + permutation/duplication/grouping session"},
-            {"name": "Pipeline", "path": "spec/Pipeline.tla spec/MC_Pipeline.tla spec/Trace_Pipeline.tla",
+            {"name": "ConfigLoad", "path": "spec/ConfigLoad.tla spec/MC_ConfigLoad.tla spec/Trace_Config.tla", "serves_properties": ["C07"],
+             "kind_free_text": "TLA+ model of what a configuration denotes, independent of layout and carrier"},
+            {"name": "Store", "path": "spec/Store.tla spec/MC_Store.tla spec/Trace_Store.tla", "serves_properties": ["C19"],
+             "kind_free_text": "TLA+ statement of the saved frame (FrameOK) on top of PipelineOps / AggregateOps"},
+            {"name": "FxParser", "path": "spec/FxParser.tla spec/MC_FxParser.tla spec/Trace_Fx.tla", "serves_properties": ["C20"],
+             "kind_free_text": "TLA+ expression semantics + postfix stack machine with a never-cleared module-level stack"},
+            {"name": "Pipeline", "path": "spec/PipelineOps.tla spec/Pipeline.tla spec/MC_Pipeline.tla spec/Trace_Pipeline.tla",
              "serves_properties": ["C05", "C06", "C18"],
              "kind_free_text": "TLA+ state machine of stream run + collect_results; all collect orders and fault placements"},
         ],
